@@ -811,6 +811,38 @@ theorem vmstack_convention (env : Env) (hEnv : EnvWF env) (e : Ty) (hw : wfb env
       .ok (Val.list (Val.toList v).reverse, rest) :=
   vmstack_roundtrip hEnv e hw fuel v hd hlen b' he
 
+/-- `VmStack.Put(val)`: the value becomes the new TOP of the stack (`*s = append(VmStack{val}, *s...)`) -/
+def stackPut (s v : Val) : Val := .cons v s
+
+/-- the stack built by pushing `args` in order with `Put`, starting from the empty stack -/
+def stackOfPuts (args : List Val) : Val := args.foldl stackPut .nil
+
+theorem toList_foldl_put (args : List Val) : ∀ (acc : Val),
+    Val.toList (args.foldl stackPut acc) = args.reverse ++ Val.toList acc := by
+  induction args with
+  | nil => intro acc; simp
+  | cons a rest ih =>
+    intro acc
+    simp only [List.foldl_cons, ih, stackPut, Val.toList, List.reverse_cons, List.append_assoc, List.singleton_append]
+
+/-- **vmstack_put_convention** — the argument side of the API: pushing `a₁ … aₙ` with `Put` (31 call sites of the
+generated get-method wrappers) makes `aₙ` the top of the stack, `[aₙ, …, a₁]`; marshalled and unmarshalled it reads back
+as `[a₁, …, aₙ]` — the results of a method come bottom-first, i.e. in the order in which they were pushed. (Composition
+of `Put` = prepend with `vmstack_convention`; the Go `Put` is compared with `stackPut` on every run: op `tlb.stackput`;
+`VmStack.Unmarshal(dest)` filling field i from entry i, the tuple helpers and the cell / slice helpers have Go-side
+oracles: `go.vmstack.dest`, `go.vmtuple`, `go.vmcell.rt`.) -/
+theorem vmstack_put_convention (env : Env) (hEnv : EnvWF env) (e : Ty) (hw : wfb env e = true) (fuel : Nat)
+    (args : List Val) (hd : inDomStack env fuel e (stackOfPuts args) = true)
+    (hlen : Prim.valLen (stackOfPuts args) < 2 ^ 24) (b' : Builder)
+    (he : encode env (fuel + 1) (.vmStack e) (stackOfPuts args) Builder.empty = .ok b') :
+    Val.toList (stackOfPuts args) = args.reverse ∧
+    ∃ rest, decode env (fuel + 1) (.vmStack e) (Slice.ofCell b'.toCell) = .ok (Val.list args, rest) := by
+  have ht : Val.toList (stackOfPuts args) = args.reverse := by
+    simpa [stackOfPuts, Val.toList] using toList_foldl_put args .nil
+  obtain ⟨rest, hr⟩ := vmstack_convention env hEnv e hw fuel _ hd hlen b' he
+  rw [ht, List.reverse_reverse] at hr
+  exact ⟨ht, rest, hr⟩
+
 /-! ## Integer families (translator X2) -/
 
 /-- every generated `UintN` / `IntN` / `VarUIntegerN` / `BitsN` writes, reads, reports and parses the width in its
